@@ -650,6 +650,19 @@ func recvPathOfAddr(fn *ssa.Function, a ssa.Value, d int) string {
 		if inner := recvPathOfValue(fn, x.X, d+1); inner != "" {
 			return inner + "[]"
 		}
+	case *ssa.Alloc:
+		// a local holding a copy of (a part of) the receiver: a range variable over one of its lists, say
+		var stored ssa.Value
+		n := 0
+		for _, r := range referrersOf(x) {
+			if st, ok := r.(*ssa.Store); ok && st.Addr == ssa.Value(x) {
+				stored = st.Val
+				n++
+			}
+		}
+		if n == 1 {
+			return recvPathOfValue(fn, stored, d+1)
+		}
 	}
 	return ""
 }
